@@ -60,3 +60,44 @@ V("c01-s-checkcov-form", "C01", CU, "    if not np.all(np.linalg.eigvals(cov) > 
 V("c01-s-cumsum-rename", "C01", ST, "        sums = np.zeros((n + 1, p))\n        start = 1", "        sums = np.zeros((1 + n, p))\n        start = 2 - 1", "silent", "equivalent constants")
 V("c01-s-kw", "C01", L2, "return l2_cost_fixed(starts, ends, self.sums_, self.sums2_, self._mean)", "return l2_cost_fixed(starts, ends, sums2=self.sums2_, sums=self.sums_, mean=self._mean)", "silent", "keyword arguments in another order")
 V("c01-s-docstring", "C01", CB, '        starts, ends = cuts[:, 0], cuts[:, 1]\n', '        # unpack the interval bounds\n        starts = cuts[:, 0]\n        ends = cuts[:, 1]\n', "silent", "unpacking written as two statements")
+
+# ------------------------------------------------------------------------ C06
+CSF = "skchange/change_scores/from_cost.py"
+CUS = "skchange/change_scores/cusum.py"
+ASF = "skchange/anomaly_scores/from_cost.py"
+L2S = "skchange/anomaly_scores/l2_saving.py"
+
+V("c06-cs-full", "C06", CSF, "        full_intervals = cuts[:, [0, 2]]", "        full_intervals = cuts[:, [0, 1]]", "fire", "full interval uses the split as end", ["ChangeScore"])
+V("c06-cs-sign", "C06", CSF, "change_scores = no_change_costs - (left_costs + right_costs)", "change_scores = no_change_costs - left_costs + right_costs", "fire", "missing parentheses", ["ChangeScore"])
+V("c06-cs-right", "C06", CSF, "        right_intervals = cuts[:, [1, 2]]", "        right_intervals = cuts[:, [0, 2]]", "fire", "right interval wrong", ["ChangeScore"])
+V("c06-cs-minsize", "C06", CSF, "        return self.cost.min_size\n\n    def _fit(self, X: ArrayLike, y=None):\n        \"\"\"Fit the change score.", "        return 1\n\n    def _fit(self, X: ArrayLike, y=None):\n        \"\"\"Fit the change score.", "fire", "adapter min_size not forwarded", ["MIN-SIZE"])
+V("c06-cusum-weights", "C06", CUS, "    before_weight = np.sqrt(after_n / (n * before_n)).reshape(-1, 1)\n    after_weight = np.sqrt(before_n / (n * after_n)).reshape(-1, 1)", "    before_weight = np.sqrt(before_n / (n * after_n)).reshape(-1, 1)\n    after_weight = np.sqrt(after_n / (n * before_n)).reshape(-1, 1)", "fire", "swapped CUSUM weights", ["CUSUM"])
+V("c06-cusum-noabs", "C06", CUS, "cusum = np.abs(before_weight * before_sum - after_weight * after_sum)", "cusum = before_weight * before_sum - after_weight * after_sum", "fire", "absolute value dropped", ["CUSUM"])
+V("c06-cusum-split", "C06", CUS, "    after_sum = sums[ends] - sums[splits]", "    after_sum = sums[ends] - sums[splits + 1]", "fire", "after-sum starts one late", ["CUSUM"])
+V("c06-cusum-n", "C06", CUS, "    before_n = splits - starts\n", "    before_n = splits - starts + 1\n", "fire", "before length off by one", ["CUSUM"])
+V("c06-cusum-cols", "C06", CUS, "        splits = cuts[:, 1]\n        ends = cuts[:, 2]", "        splits = cuts[:, 2]\n        ends = cuts[:, 1]", "fire", "split/end columns swapped", ["CUSUM"])
+V("c06-saving-sign", "C06", ASF, "        savings = baseline_costs - optimised_costs", "        savings = optimised_costs - baseline_costs", "fire", "saving sign", ["Saving"])
+V("c06-saving-noclone", "C06", ASF, "self.optimised_cost: BaseCost = baseline_cost.clone().set_params(param=None)", "self.optimised_cost: BaseCost = baseline_cost.set_params(param=None)", "fire", "optimised cost is the user's object", ["Saving"])
+V("c06-saving-param", "C06", ASF, "self.optimised_cost: BaseCost = baseline_cost.clone().set_params(param=None)", "self.optimised_cost: BaseCost = baseline_cost.clone()", "fire", "optimised cost keeps the fixed parameter", ["Saving"])
+V("c06-saving-accepts-none", "C06", ASF, "        if baseline_cost.param is None:\n            raise ValueError(\"The baseline cost must have a fixed parameter.\")\n", "", "fire", "baseline without parameter accepted", ["rejects"])
+V("c06-saving-fit", "C06", ASF, "        self.baseline_cost.fit(X)\n        self.optimised_cost.fit(X)\n", "        self.baseline_cost.fit(X)\n", "fire", "optimised cost never fitted", ["Saving"])
+V("c06-l2s-n", "C06", L2S, "    saving = (sums[ends] - sums[starts]) ** 2 / n", "    saving = (sums[ends] - sums[starts]) ** 2 / (n + 1)", "fire", "l2 saving denominator", ["L2Saving"])
+V("c06-l2s-sq", "C06", L2S, "    saving = (sums[ends] - sums[starts]) ** 2 / n", "    saving = np.abs(sums[ends] - sums[starts]) / n", "fire", "l2 saving not squared", ["L2Saving"])
+V("c06-las-inner", "C06", ASF, "        inner_intervals = cuts[:, 1:3]", "        inner_intervals = cuts[:, 0:2]", "fire", "inner interval columns", ["LocalAnomalyScore"])
+V("c06-las-outer", "C06", ASF, "        outer_intervals = cuts[:, [0, 3]]", "        outer_intervals = cuts[:, [0, 2]]", "fire", "outer interval columns", ["LocalAnomalyScore"])
+V("c06-las-after", "C06", ASF, "            after_inner_interval = interval[2:4]", "            after_inner_interval = interval[1:3]", "fire", "surrounding data includes the anomaly", ["LocalAnomalyScore"])
+V("c06-las-order", "C06", ASF, "            self._any_subset_cost.fit(surrounding_data)\n            surrounding_costs[i] = self._any_subset_cost.evaluate(\n                [0, surrounding_data.shape[0]]\n            )", "            surrounding_costs[i] = self._any_subset_cost.evaluate(\n                [0, surrounding_data.shape[0]]\n            )\n            self._any_subset_cost.fit(surrounding_data)", "fire", "evaluate before refit (stale surroundings)", ["LocalAnomalyScore"])
+V("c06-las-noclone", "C06", ASF, "        self._any_subset_cost: BaseCost = cost.clone()", "        self._any_subset_cost: BaseCost = cost", "fire", "refits the user's cost object", ["LocalAnomalyScore", "OWNED"])
+V("c06-las-len", "C06", ASF, "                [0, surrounding_data.shape[0]]", "                [0, surrounding_data.shape[0] - 1]", "fire", "pooled interval too short", ["LocalAnomalyScore"])
+V("c06-las-sign", "C06", ASF, "        anomaly_scores = outer_costs - (inner_costs + surrounding_costs)", "        anomaly_scores = outer_costs - inner_costs + surrounding_costs", "fire", "missing parentheses", ["LocalAnomalyScore"])
+V("c06-to-cs-copy", "C06", CSF, "    elif isinstance(scorer, BaseChangeScore):\n        change_score = scorer", "    elif isinstance(scorer, BaseChangeScore):\n        change_score = scorer.clone()", "fire", "pass-through returns a clone", ["PASS-THROUGH"])
+V("c06-to-saving-err", "C06", ASF, "    else:\n        raise ValueError(\n            f\"scorer must be an instance of BaseSaving or BaseCost. \"", "    else:\n        raise TypeError(\n            f\"scorer must be an instance of BaseSaving or BaseCost. \"", "fire", "wrong exception kind", ["PASS-THROUGH"])
+
+V("c06-s-cs-form", "C06", CSF, "change_scores = no_change_costs - (left_costs + right_costs)", "change_scores = -right_costs + no_change_costs - left_costs", "silent", "reordered")
+V("c06-s-cs-cols", "C06", CSF, "        left_intervals = cuts[:, [0, 1]]", "        left_intervals = cuts[:, 0:2]", "silent", "slice instead of list of columns")
+V("c06-s-cusum-sqrt", "C06", CUS, "    before_weight = np.sqrt(after_n / (n * before_n)).reshape(-1, 1)", "    before_weight = (np.sqrt(after_n) / np.sqrt(n * before_n)).reshape(-1, 1)", "silent", "sqrt of quotient split")
+V("c06-s-cusum-sqrt2", "C06", CUS, "    after_weight = np.sqrt(before_n / (n * after_n)).reshape(-1, 1)", "    after_weight = np.sqrt(before_n / n / after_n).reshape(-1, 1)", "silent", "chained division")
+V("c06-s-cusum-absflip", "C06", CUS, "cusum = np.abs(before_weight * before_sum - after_weight * after_sum)", "cusum = np.abs(after_weight * after_sum - before_weight * before_sum)", "silent", "|x| == |-x|")
+V("c06-s-l2s", "C06", L2S, "    saving = (sums[ends] - sums[starts]) ** 2 / n", "    seg = sums[ends] - sums[starts]\n    saving = seg * seg / n", "silent", "temporary")
+V("c06-s-las-idx", "C06", ASF, "            before_data = X[before_inner_interval[0] : before_inner_interval[1]]", "            before_data = X[interval[0] : interval[1]]", "silent", "direct row access")
+V("c06-s-saving", "C06", ASF, "        savings = baseline_costs - optimised_costs\n        return savings", "        return -(optimised_costs - baseline_costs)", "silent", "negated difference")
